@@ -7,7 +7,7 @@
      shamir_correct        >= t distinct holders of the set reconstruct cs_0 (Lagrange at 0)
      shamir_exact          an unqualified ID list is refused
      shamir_privacy        < t holders: every secret is consistent with their shares              *)
-From Coq Require Import List NArith Arith Bool Lia Field Ring.
+From Coq Require Import List NArith Arith Bool Lia Field Ring Permutation.
 Import ListNotations.
 Require Import V.base.Fld V.model.LinAlg V.model.Poly V.model.Interp V.model.Access V.model.Msp V.model.Schemes.
 Require Import V.proofs.LinAlg_proofs V.proofs.Poly_proofs V.proofs.Interp_proofs V.proofs.Span_proofs
@@ -173,6 +173,14 @@ Qed.
 End SchemesProofs.
 
 (* ---- ISN ------------------------------------------------------------------------------------------------ *)
+Lemma NoDup_app_snoc : forall {A} (l : list A) x, NoDup l -> ~ In x l -> NoDup (l ++ [x]).
+Proof.
+  intros A l x Hnd Hni. induction l as [|a l IH]; cbn; [constructor; auto; constructor|].
+  inversion Hnd; subst. constructor.
+  - intro Hin. apply in_app_or in Hin. destruct Hin as [Hin|[->|[]]]; [contradiction|]. apply Hni. now left.
+  - apply IH; auto. intro; apply Hni; now right.
+Qed.
+
 Section IsnProofs.
 Context {F : Type} (K : fops F) (HK : flaws K).
 
@@ -222,6 +230,156 @@ Proof.
       assert (Hm : memN id (nth k mus []) = true) by (apply memN_In; auto). rewrite Hm. cbn [negb]. exact IH.
     + cbn [fst]. destruct (negb (memN id (nth i mus []))); [f_equal|]; exact IH.
   - rewrite (upd_fsum K HK) by auto. ring.
+Qed.
+
+
+(* correctness: if every maximal unqualified set misses some listed holder (i.e. the list is
+   qualified), the dealt shares of the listed holders reconstruct the sum of all summands *)
+Lemma fsum_perm : forall (l l' : list F), Permutation l l' -> fsum K l = fsum K l'.
+Proof.
+  induction 1 as [| x l l' _ IH | x y l | l l' l'' _ IH1 _ IH2].
+  - reflexivity.
+  - now rewrite !(fsum_cons K HK), IH.
+  - rewrite !(fsum_cons K HK). ring.
+  - now rewrite IH1.
+Qed.
+
+Lemma map_nth_seq : forall (l : list F), map (fun k => nth k l 0) (seq 0 (length l)) = l.
+Proof.
+  intros l. apply (nth_ext_eq _ _ 0).
+  - now rewrite map_length, seq_length.
+  - intros i Hi. rewrite map_length, seq_length in Hi.
+    rewrite (nth_map_lt _ (seq 0 (length l)) O 0) by (rewrite seq_length; lia). now rewrite seq_nth by lia.
+Qed.
+
+Lemma assoc_dealt : forall mus (summands : list F) id k s,
+  ~ In id (nth k mus []) ->
+  assoc_nat k (filter (fun kv => negb (memN id (nth (fst kv) mus []))) (combine (seq s (length summands)) summands))
+  = if Nat.leb s k && Nat.ltb k (s + length summands) then Some (nth (k - s) summands 0) else None.
+Proof.
+  intros mus summands; induction summands as [|a l IH]; intros id k s Hni.
+  - cbn [length seq combine filter assoc_nat].
+    destruct (Nat.leb_spec s k), (Nat.ltb_spec k (s + 0)); cbn [andb]; try reflexivity; lia.
+  - assert (Hm : memN id (nth k mus []) = false).
+    { destruct (memN id (nth k mus [])) eqn:E; [apply memN_In in E; contradiction|reflexivity]. }
+    cbn [length seq combine filter fst].
+    destruct (Nat.eqb s k) eqn:Esk.
+    + apply Nat.eqb_eq in Esk. subst s. rewrite Hm. cbn [negb assoc_nat]. rewrite Nat.eqb_refl.
+      destruct (Nat.leb_spec k k), (Nat.ltb_spec k (k + S (length l))); cbn [andb]; try lia.
+      now rewrite Nat.sub_diag.
+    + apply Nat.eqb_neq in Esk.
+      assert (Hrest : forall rest, assoc_nat k (if negb (memN id (nth s mus [])) then (s, a) :: rest else rest) = assoc_nat k rest).
+      { intros rest. destruct (negb (memN id (nth s mus []))); [|reflexivity]. cbn [assoc_nat].
+        destruct (Nat.eqb k s) eqn:E; [apply Nat.eqb_eq in E; lia|reflexivity]. }
+      rewrite Hrest, (IH id k (S s) Hni).
+      destruct (Nat.leb_spec (S s) k), (Nat.ltb_spec k (S s + length l)),
+               (Nat.leb_spec s k), (Nat.ltb_spec k (s + S (length l))); cbn [andb]; try reflexivity; try lia.
+      replace (k - s)%nat with (S (k - S s)) by lia. reflexivity.
+Qed.
+
+Definition chunks_ok (summands : list F) (chunks : list (nat * F)) : Prop :=
+  NoDup (map fst chunks) /\ forall k v, In (k, v) chunks -> (k < length summands)%nat /\ v = nth k summands 0.
+
+Lemma assoc_nat_in : forall k (l : list (nat * F)) v, assoc_nat k l = Some v -> In (k, v) l.
+Proof.
+  induction l as [|[k' v'] l IH]; intros v H; [discriminate|]. cbn [assoc_nat] in H.
+  destruct (Nat.eqb k k') eqn:E; [apply Nat.eqb_eq in E; subst; inversion H; now left|right; auto].
+Qed.
+
+Lemma assoc_nat_none : forall k (l : list (nat * F)), assoc_nat k l = None -> ~ In k (map fst l).
+Proof.
+  induction l as [|[k' v'] l IH]; intros H; [intros []|]. cbn [assoc_nat] in H.
+  destruct (Nat.eqb k k') eqn:E; [discriminate|]. apply Nat.eqb_neq in E. cbn [map fst]. intros [Hx|Hx]; [congruence|].
+  now apply IH.
+Qed.
+
+Theorem isn_correct : forall p mus (summands : list F) ids,
+  length summands = length mus -> is_qualified p ids = true ->
+  (forall k, (k < length mus)%nat -> exists id, In id ids /\ ~ In id (nth k mus [])) ->
+  isn_reconstruct K p mus (isn_deal mus summands ids) = Some (fsum K summands).
+Proof.
+  intros p mus summands ids Hlen Hq Hcover. unfold isn_reconstruct.
+  assert (Hfst : map fst (isn_deal mus summands ids) = ids).
+  { unfold isn_deal. rewrite map_map. cbn [fst]. apply map_id. }
+  rewrite Hfst, Hq. cbn [negb].
+  (* the inner loop for one dealt share *)
+  set (inner := fun (id : N) (sh : isn_share (F:=F)) (acc : option (list (nat * F))) (ks : list nat) =>
+    fold_left (fun acc k =>
+      match acc with
+      | None => None
+      | Some chunks =>
+        if memN (fst sh) (nth k mus []) then Some chunks else
+        match assoc_nat k (snd sh) with
+        | None => None
+        | Some c => match assoc_nat k chunks with
+                    | Some c0 => if feqb K c0 c then Some chunks else None
+                    | None => Some (chunks ++ [(k, c)])
+                    end
+        end
+      end) ks acc).
+  assert (Hinner : forall id ks chunks, chunks_ok summands chunks -> (forall k, In k ks -> (k < length mus)%nat) ->
+     exists chunks', inner id (id, filter (fun kv => negb (memN id (nth (fst kv) mus []))) (combine (seq 0 (length mus)) summands)) (Some chunks) ks = Some chunks'
+        /\ chunks_ok summands chunks' /\ incl (map fst chunks) (map fst chunks')
+        /\ forall k, In k ks -> ~ In id (nth k mus []) -> In k (map fst chunks')).
+  { intros id ks; induction ks as [|k ks IH]; intros chunks Hok Hks.
+    - exists chunks. split; [reflexivity|]. split; [exact Hok|]. split; [apply incl_refl|]. intros k [].
+    - unfold inner. cbn [fold_left fst snd]. fold (inner id (id, filter (fun kv => negb (memN id (nth (fst kv) mus []))) (combine (seq 0 (length mus)) summands))).
+      assert (Hk : (k < length mus)%nat) by (apply Hks; now left).
+      destruct (memN id (nth k mus [])) eqn:Em.
+      + destruct (IH chunks Hok (fun k' H' => Hks k' (or_intror H'))) as [c' [E [Hok' [Hinc Hcov]]]].
+        exists c'. split; [exact E|]. split; [exact Hok'|]. split; [exact Hinc|].
+        intros k' [->|Hk'] Hni; [apply memN_In in Em; contradiction|auto].
+      + assert (Hni : ~ In id (nth k mus [])) by (intro H; apply memN_In in H; congruence).
+        rewrite <- Hlen. rewrite (assoc_dealt mus summands id k 0 Hni).
+        cbn [Nat.leb plus andb]. assert (El : Nat.ltb k (length summands) = true) by (apply Nat.ltb_lt; lia).
+        rewrite El, Nat.sub_0_r.
+        destruct (assoc_nat k chunks) as [c0|] eqn:Ea.
+        * pose proof (assoc_nat_in k chunks c0 Ea) as Hin. destruct Hok as [Hnd Hval].
+          destruct (Hval k c0 Hin) as [_ ->].
+          assert (Ef : feqb K (nth k summands 0) (nth k summands 0) = true) by (now apply (fl_eqb K HK)).
+          rewrite Ef. rewrite Hlen.
+          destruct (IH chunks (conj Hnd Hval) (fun k' H' => Hks k' (or_intror H'))) as [c' [E [Hok' [Hinc Hcov]]]].
+          exists c'. split; [exact E|]. split; [exact Hok'|]. split; [exact Hinc|].
+          intros k' [->|Hk'] Hni'; [|auto]. apply Hinc. apply in_map_iff. exists (k', nth k' summands 0). auto.
+        * pose proof (assoc_nat_none k chunks Ea) as Hnin. rewrite Hlen.
+          assert (Hok2 : chunks_ok summands (chunks ++ [(k, nth k summands 0)])).
+          { destruct Hok as [Hnd Hval]. split.
+            - rewrite map_app. cbn [map fst]. apply NoDup_app_snoc; auto.
+            - intros k' v' Hin'. apply in_app_or in Hin'. destruct Hin' as [Hin'|[E|[]]]; [auto|].
+              inversion E; subst. split; [lia|reflexivity]. }
+          destruct (IH _ Hok2 (fun k' H' => Hks k' (or_intror H'))) as [c' [E [Hok' [Hinc Hcov]]]].
+          exists c'. split; [exact E|]. split; [exact Hok'|]. split.
+          -- intros x Hx. apply Hinc. rewrite map_app. apply in_or_app. now left.
+          -- intros k' [->|Hk'] Hni'; [|auto]. apply Hinc. rewrite map_app. apply in_or_app. right. now left. }
+  (* the outer loop over the dealt shares *)
+  assert (Houter : forall l chunks, chunks_ok summands chunks ->
+     exists chunks', fold_left (fun acc sh => inner (fst sh) sh acc (seq 0 (length mus))) (isn_deal mus summands l) (Some chunks) = Some chunks'
+        /\ chunks_ok summands chunks' /\ incl (map fst chunks) (map fst chunks')
+        /\ forall id k, In id l -> (k < length mus)%nat -> ~ In id (nth k mus []) -> In k (map fst chunks')).
+  { induction l as [|id l IH]; intros chunks Hok.
+    - exists chunks. split; [reflexivity|]. split; [exact Hok|]. split; [apply incl_refl|]. intros ? ? [].
+    - cbn [isn_deal map fold_left fst].
+      destruct (Hinner id (seq 0 (length mus)) chunks Hok) as [c1 [E1 [Hok1 [Hinc1 Hcov1]]]].
+      { intros k Hk. apply in_seq in Hk. lia. }
+      rewrite E1. destruct (IH c1 Hok1) as [c2 [E2 [Hok2 [Hinc2 Hcov2]]]].
+      exists c2. split; [exact E2|]. split; [exact Hok2|]. split.
+      + intros x Hx. apply Hinc2, Hinc1, Hx.
+      + intros id' k [->|Hid'] Hk Hni; [|eauto]. apply Hinc2. apply Hcov1; auto. apply in_seq. lia. }
+  destruct (Houter ids [] (conj (NoDup_nil _) (fun k v (H : In (k, v) []) => match H with end))) as [c [E [[Hnd Hval] [_ Hcov]]]].
+  unfold inner in E. cbn [fst] in E.
+  match goal with |- match ?x with _ => _ end = _ => replace x with (Some c) by (symmetry; exact E) end.
+  f_equal.
+  (* the chunk keys are a permutation of 0..L-1 *)
+  assert (Hperm : Permutation (map fst c) (seq 0 (length summands))).
+  { apply NoDup_Permutation; [exact Hnd|apply seq_NoDup|]. intros k. split.
+    - intros Hk. apply in_map_iff in Hk. destruct Hk as [[k' v] [Ek Hin]]. cbn in Ek. subst k'.
+      apply in_seq. destruct (Hval k v Hin). lia.
+    - intros Hk. apply in_seq in Hk. destruct (Hcover k ltac:(lia)) as [id [Hid Hni]]. apply (Hcov id k); auto. lia. }
+  assert (Hsnd : map snd c = map (fun k => nth k summands 0) (map fst c)).
+  { rewrite map_map. apply map_ext_in. intros [k v] Hin. cbn [fst snd]. now destruct (Hval k v Hin). }
+  rewrite Hsnd. rewrite (fsum_perm _ (map (fun k => nth k summands 0) (seq 0 (length summands)))).
+  - now rewrite map_nth_seq.
+  - now apply Permutation_map.
 Qed.
 
 End IsnProofs.
